@@ -10,6 +10,7 @@ import (
 	"fmt"
 	"math/big"
 	"reflect"
+	"strings"
 
 	"cosmossdk.io/math"
 	sdk "github.com/cosmos/cosmos-sdk/types"
@@ -24,13 +25,14 @@ func init() {
 		ID:    "C05",
 		Level: "model_checking",
 		Rule: "BFS (depth 4 quick / 7 thorough, sharded by first action) over deposits by two depositors with finite balances (amounts 1, limit=2^64+1, limit+1, balance, balance+1; both variants), user sends incl. a 132-byte body imitating a burn message, " +
+			"deposits during which the transfer or the burn is refused / fails after taking effect / panics (6 fault plans + 2 on the with-caller variant), " +
 			"replacements (by the right and the wrong submitter) of the first user message / imitation / deposit emitted, pause/unpause; module account pre-funded with a stray balance; " +
 			"in every state: supply destroyed == sum of burn-message amounts over distinct module-sent nonces, module balance unchanged; per step: only the depositor is debited, by the amount; sender rule for every MessageSent; " +
 			"distinct_nontrivial = distinct (outstanding burn set, transaction, outcome) triples",
 		Assumptions: []string{"the From field is the authenticated signer, so nobody submits with From = module address"},
 		Jobs:        c05Jobs,
 		Vacuity: func(m *Run) []string {
-			if m.Classes["ok"] == 0 || m.Classes["error"] == 0 || m.Classes["deposit-checked"] == 0 {
+			if m.Classes["ok"] == 0 || m.Classes["error"] == 0 || m.Classes["deposit-checked"] == 0 || m.Classes["fault-panic"]+m.Classes["faulted-error"] == 0 {
 				return []string{fmt.Sprintf("C05 vacuous: %v", m.Classes)}
 			}
 			return nil
@@ -84,6 +86,15 @@ func c05BFS(r *Run, depth, shard int) {
 		Act("pauseBurningAndMinting by A2", &cctptypes.MsgPauseBurningAndMinting{From: Pauser.Str}),
 		Act("unpauseBurningAndMinting by A2", &cctptypes.MsgUnpauseBurningAndMinting{From: Pauser.Str}),
 	}
+	// "... and failures": deposits during which one dependency call fails -- refused before taking effect, failing after
+	// it took effect, or panicking -- at the transfer or at the burn (round 6, C05r6-1: a handler that swallows a
+	// dependency panic emits a burn message that nothing backs)
+	for _, plan := range [][]int{{FaultBefore}, {FaultAfter}, {FaultPanic}, {FaultNone, FaultBefore}, {FaultNone, FaultAfter}, {FaultNone, FaultPanic}} {
+		menu = append(menu, MkDeposit(UserB.Str, math.NewInt(20), DomEth, distinct32(0x24), "uusdc").WithFault(plan...))
+	}
+	menu = append(menu,
+		MkDepositWithCaller(UserA.Str, math.NewInt(2), DomAvax, distinct32(0x24), "uusdc", distinct32(0x25)).WithFault(FaultPanic),
+		MkDepositWithCaller(UserA.Str, math.NewInt(2), DomAvax, distinct32(0x24), "uusdc", distinct32(0x25)).WithFault(FaultNone, FaultPanic))
 	var genesisSupply math.Int
 	var stray math.Int
 
@@ -133,9 +144,24 @@ func c05BFS(r *Run, depth, shard int) {
 				x.Expected, x.Observed = exp, obs
 				return x
 			}
+			faulted := false
+			for _, f := range a.Fault {
+				faulted = faulted || f != FaultNone
+			}
+			if o.Panicked && (panicInjected(o.Deps) || strings.Contains(o.PanicVal, "injected dependency panic")) {
+				// the injected dependency panic reached baseapp, which discards the transaction: nothing may remain
+				r.Class("fault-panic")
+				if HashBytes(w.Dump()) != HashBytes(pre.Dump) {
+					r.Violate("C05 transaction aborted by a dependency panic left effects behind", fmt.Sprintf("%s: %v", a.Desc, DiffDumps(pre.Dump, w.Dump())), rp("", ""))
+				}
+				return false
+			}
 			if o.Panicked {
 				r.Violate("C05 panic "+kind, a.Desc+": "+o.PanicVal, rp("", ""))
 				return false
+			}
+			if faulted {
+				r.Class("faulted-" + o.Class())
 			}
 			next := c05Model{Out: map[string]string{}}
 			for k, v := range m.Out {
